@@ -77,7 +77,7 @@ def tasks(tier, pid):
     if pid in ('C04', 'C07', 'C17', 'C03'):
         # C03 names recipe steps: a step refuses/accepts like the direct operation iff bake hands it the current states
         from contracts import bake as BK
-        t += [('bake',) + x for x in BK.tasks(tier, pid) if x[0] == 'step']
+        t += [('bake',) + x for x in BK.tasks(tier, pid) if x[0] == 'step' and (pid != 'C17' or x[1].startswith('remove'))]
     if pid == 'C17':
         from contracts import trackers as TR
         t += [('tracker',) + x for x in TR.tasks(tier, pid) if x[0] == 'used' and 'remove' in x[1]]
